@@ -23,6 +23,7 @@ type progSpec struct {
 	FaultPct  int
 	Layouts   []Layout
 	Rule      string
+	WrapEnums bool // also run each enumerated shape moved into a parameterless function (register 0 base)
 }
 
 var propsRe = regexp.MustCompile(`(?m)^-- PROPS:(.*)$`)
@@ -51,6 +52,25 @@ func corpusPrograms(prop string) []ProgCase {
 	return res
 }
 
+// wrapInFunction returns the same program with its whole body moved into a parameterless vararg function that is
+// called once: every local of the original chunk then starts at register 0 of a fresh frame (shapes such as
+// "the loop body's first local lives in register 0" are reached systematically, not by luck).
+func wrapInFunction(p *Program) *Program {
+	ch := p.Chunk()
+	if ch == nil {
+		return nil
+	}
+	w := &Chunk{Body: []*Stmt{
+		sLocalFn("W__", eFn(nil, true, ch.Body)),
+		sRet(eCallN("W__", eDots())),
+	}}
+	q := finishProgram(w, Layout{Kind: "oneline", EOL: "\n"}, NewRng(7))
+	q.Skeleton = "wrapped:" + p.Skeleton
+	return q
+}
+
+// stripLeadingLocals drops the leading run of plain `local` declarations whose names are not used later (the
+// generator's preamble), so that the first interesting statement owns register 0 of its function.
 func runProgProperty(run *Run, ps progSpec) {
 	n := ps.QuickN
 	if run.Tier == "thorough" {
@@ -87,6 +107,11 @@ func runProgProperty(run *Run, ps progSpec) {
 		for _, i := range perm[:limit] {
 			p := en[i]
 			add(ProgCase{Src: p.Src, Sexp: p.Sexp, Note: "enum"}, p.Skeleton)
+			if ps.WrapEnums {
+				if q := wrapInFunction(p); q != nil {
+					add(ProgCase{Src: q.Src, Sexp: q.Sexp, Note: "enum-wrapped"}, q.Skeleton)
+				}
+			}
 			for k, v := range p.Feats {
 				run.Hist["feat:"+k] += v
 			}
@@ -140,7 +165,7 @@ func init() {
 		Enums: EnumCallShapes,
 		Rule: "profile `calls` (varargs, multiple results in every context, method sugar, tail calls, select, unpack) + bounded-exhaustive call shapes + corpus; oracle = Lean reference semantics"})
 	reg(progSpec{Prop: "C03", Profiles: []string{"closures"}, QuickN: 1200, ThoroughN: 30000, FaultPct: 10, Layouts: one,
-		Enums: EnumClosureExitShapes,
+		Enums: EnumClosureExitShapes, WrapEnums: true,
 		Rule: "profile `closures` (capture × exit path × register reuse; shared upvalues; setfenv/getfenv) + exhaustive closure exit shapes + corpus; oracle = Lean reference semantics"})
 	reg(progSpec{Prop: "C04", Profiles: []string{"meta"}, QuickN: 1000, ThoroughN: 25000, FaultPct: 10, Layouts: one,
 		Rule: "profile `meta` (metatables with every subset of events, chains, operand type pairs, logging handlers) + corpus; oracle = Lean reference semantics (manual §2.8)"})
